@@ -529,6 +529,9 @@ fn data_shapes() -> Vec<(&'static str, Data)> {
         ("two-and-shared", mk(vec![2.0, 0.0], vec![0.0, 2.0, 2.0], graph(vec![("A", vec![("B", Some(0.5))]), ("B", vec![])]))),
         // an empty array, and a graph whose only node has no edges: every aggregation over them is empty
         ("empty-A", mk(vec![], vec![3.0], graph(vec![("A", vec![])]))),
+        // node names spelled like the iteration variables the templates use (u, v, n, t): a compound index
+        // `e_u_v` must still be the current pair, not the variable literally called e_u_v
+        ("nodes-named-like-iteration-variables", mk(vec![1.0, 2.0, 3.0], vec![4.0, 5.0], graph(vec![("A", vec![("u", Some(2.0)), ("v", None)]), ("u", vec![("v", Some(1.5)), ("n", Some(3.0))]), ("v", vec![("A", None), ("t", Some(0.5))]), ("n", vec![("u", None)]), ("t", vec![])]))),
     ]
 }
 
